@@ -1,0 +1,241 @@
+`timescale 1ns / 1ps
+
+module request(clk, reset, req, ack, impulse);
+    input clk;
+    input reset;
+    output reg req;
+    input ack;
+    input impulse;
+
+    reg state;
+
+    initial begin
+        state = 0;
+        req = 0;
+    end
+
+    always @(posedge clk) begin
+        if (reset) begin
+            state <= 0;
+        end else begin
+            case (state)
+                0: begin
+                    req <= 0;
+                    if (impulse) begin
+                        state <= 1;
+                    end
+                end
+                1: begin
+                    if (impulse) begin
+                        $display("Warning: impulse while request is active, the impulse will be ignored");
+                    end
+                    req <= 1;
+                    if (ack) begin
+                        state <= 0;
+                    end
+                end
+            endcase
+        end
+    end
+
+endmodule
+
+module bmstack_tb;
+
+    // Inputs and outputs
+    reg clk;
+    reg reset;
+    wire empty;
+    wire full;
+    reg [31:0] sender1Data;
+    wire sender1Write;
+    wire sender1Ack;
+    reg sender1Impulse;
+    reg [31:0] sender2Data;
+    wire sender2Write;
+    wire sender2Ack;
+    reg sender2Impulse;
+    reg [31:0] sender3Data;
+    wire sender3Write;
+    wire sender3Ack;
+    reg sender3Impulse;
+    wire [31:0] receiver1Data;
+    wire receiver1Read;
+    wire receiver1Ack;
+    reg receiver1Impulse;
+    wire [31:0] receiver2Data;
+    wire receiver2Read;
+    wire receiver2Ack;
+    reg receiver2Impulse;
+
+    // Clock
+    always #1 clk = ~clk;
+
+    // Instantiate the Unit Under Test (UUT)
+    bmstack uut (
+        .clk(clk),
+        .reset(reset),
+        .sender1Data(sender1Data),
+        .sender1Write(sender1Write),
+        .sender1Ack(sender1Ack),
+        .sender2Data(sender2Data),
+        .sender2Write(sender2Write),
+        .sender2Ack(sender2Ack),
+        .sender3Data(sender3Data),
+        .sender3Write(sender3Write),
+        .sender3Ack(sender3Ack),
+        .receiver1Data(receiver1Data),
+        .receiver1Read(receiver1Read),
+        .receiver1Ack(receiver1Ack),
+        .receiver2Data(receiver2Data),
+        .receiver2Read(receiver2Read),
+        .receiver2Ack(receiver2Ack),
+        .empty(empty),
+        .full(full)
+    );
+
+    // Instantiate the stimulus process
+    request sender1_req(
+        .clk(clk),
+        .reset(reset),
+        .req(sender1Write),
+        .ack(sender1Ack),
+        .impulse(sender1Impulse)
+    );
+    request sender2_req(
+        .clk(clk),
+        .reset(reset),
+        .req(sender2Write),
+        .ack(sender2Ack),
+        .impulse(sender2Impulse)
+    );
+    request sender3_req(
+        .clk(clk),
+        .reset(reset),
+        .req(sender3Write),
+        .ack(sender3Ack),
+        .impulse(sender3Impulse)
+    );
+    request receiver1_req(
+        .clk(clk),
+        .reset(reset),
+        .req(receiver1Read),
+        .ack(receiver1Ack),
+        .impulse(receiver1Impulse)
+    );
+    request receiver2_req(
+        .clk(clk),
+        .reset(reset),
+        .req(receiver2Read),
+        .ack(receiver2Ack),
+        .impulse(receiver2Impulse)
+    );
+
+    initial begin
+		$dumpfile("bmstack.vcd");
+		$dumpvars;
+	end
+
+    initial begin
+        clk = 0;
+        reset = 1;
+        sender1Data = 0;
+        sender1Impulse = 0;
+        sender2Data = 0;
+        sender2Impulse = 0;
+        sender3Data = 0;
+        sender3Impulse = 0;
+        receiver1Impulse = 0;
+        receiver2Impulse = 0;
+
+        // Wait 100 ns for reset
+        #100;        
+  
+        // Release reset
+        reset = 1'b0;
+
+        // Start tests
+        
+        #100;
+        // Push agent sender1 at tick 100 with value 32'd1
+        sender1Data=32'd1;
+        sender1Impulse=1;
+        #2;
+        sender1Impulse=0;
+        
+        #10;
+        // Pop agent receiver1 at tick 110
+        receiver1Impulse=1;
+        #2;
+        receiver1Impulse=0;
+        
+        #40;
+        // Push agent sender2 at tick 150 with value 32'd2
+        sender2Data=32'd2;
+        sender2Impulse=1;
+        #2;
+        sender2Impulse=0;
+        
+        #10;
+        // Pop agent receiver2 at tick 160
+        receiver2Impulse=1;
+        #2;
+        receiver2Impulse=0;
+        
+        #40;
+        // Push agent sender3 at tick 200 with value 32'd3
+        sender3Data=32'd3;
+        sender3Impulse=1;
+        #2;
+        sender3Impulse=0;
+        
+        #10;
+        // Pop agent receiver1 at tick 210
+        receiver1Impulse=1;
+        #2;
+        receiver1Impulse=0;
+        
+        #40;
+        // Push agent sender1 at tick 250 with value 32'd4
+        sender1Data=32'd4;
+        sender1Impulse=1;
+        #2;
+        sender1Impulse=0;
+        
+        #10;
+        // Pop agent receiver2 at tick 260
+        receiver2Impulse=1;
+        #2;
+        receiver2Impulse=0;
+        
+        #40;
+        // Push agent sender2 at tick 300 with value 32'd5
+        sender2Data=32'd5;
+        sender2Impulse=1;
+        #2;
+        sender2Impulse=0;
+        
+        #10;
+        // Pop agent receiver1 at tick 310
+        receiver1Impulse=1;
+        #2;
+        receiver1Impulse=0;
+        
+        #40;
+        // Push agent sender3 at tick 350 with value 32'd6
+        sender3Data=32'd6;
+        sender3Impulse=1;
+        #2;
+        sender3Impulse=0;
+        
+        #10;
+        // Pop agent receiver2 at tick 360
+        receiver2Impulse=1;
+        #2;
+        receiver2Impulse=0;
+
+        #1000;
+        $finish;
+
+    end
+endmodule
